@@ -10,12 +10,18 @@ namespace PtModel
 section Acc
 variable {α : Type} [Field α] [DecidableEq α]
 
-theorem sumOf_eq (l : List α) : sumOf l = l.sum := by
+theorem sumOf_eq [LT α] [DecidableRel (α := α) (· < ·)] (l : List α) : sumOf l = l.sum := by
   unfold sumOf
-  have : ∀ (l : List α) (s : α), l.foldl (fun s x => s + x) s = s + l.sum := by
+  have : ∀ (l : List α) (s : α), l.foldl sumStep (s, 0) = (s + l.sum, 0) := by
     intro l; induction l with
-    | nil => simp
-    | cons x r ih => intro s; simp only [List.foldl_cons, ih, List.sum_cons]; ring
+    | nil => intro s; simp
+    | cons x r ih =>
+      intro s
+      have hstep : sumStep (s, 0) x = (s + x, 0) := by
+        unfold sumStep
+        split <;> simp <;> ring
+      simp only [List.foldl_cons, hstep, ih, List.sum_cons]
+      congr 1; ring
   rw [this]; simp
 
 theorem accumulate_fold_flatMass (w : Atom → α) (parts : List (α × FVal α)) (acc : Items α) :
